@@ -74,6 +74,8 @@ func main() {
 			s = sim.RunConcWorker(p)
 		case "enum":
 			s = sim.RunEnumWorker(p)
+		case "hist3":
+			s = sim.RunHistEnumWorker(p)
 		default:
 			s = sim.RunOtherWorker(p)
 		}
